@@ -1,5 +1,6 @@
 import FsDb.Proofs.Reopen
 import FsDb.Proofs.SpecInv
+import FsDb.Proofs.MultiDb
 /-!
 # C05 — Reopening preserves the committed state and later writes keep winning
 
@@ -130,5 +131,31 @@ def casCounter (counter0 maxSeq : Nat) : Nat := if counter0 = 0 then maxSeq else
     next reopen, then the older version wins — an acknowledged write is lost.  A test of the model;
     the check replays it with two OS processes (first history of the C05 run). -/
 theorem C05_cas_witness : casCounter 1 20 + 1 < 20 ∧ max 1 20 + 1 > 20 := by decide
+
+
+/-! ### whatever other database instances the same process has opened -/
+
+/-- **Several databases in one process** share only the sequence counter.  For EVERY interleaved
+    history of operations on any number of databases (`Proc.step`: a database sees the process-wide
+    counter when it runs an operation and leaves it advanced), every database answers exactly what
+    the specification answers to ITS OWN operations alone: the others are invisible.  (Operations:
+    everything but Close/Open, which `C05_refinement_with_reopen` covers for one database; the
+    multi-database run with Close/Open and process restarts is exercised by the correspondence.) -/
+theorem C05_multi_db (h : List (Nat × Op)) (hp : ∀ x ∈ h, plainOp x.2 = true) (d : Nat) :
+    ((({} : Proc).run h).2.filter (·.1 = d)).map (·.2) = (Spec.run {} ((h.filter (·.1 = d)).map (·.2))).2 :=
+  multi_db h hp d
+
+/-- one database in an environment that raises the counter at arbitrary moments by arbitrary amounts -/
+theorem C05_environment_invisible (es : List EOp) (hp : ∀ e ∈ es, e.plain = true) :
+    (({} : Sys).erun es).2 = (Spec.run {} (opsOf es)).2 :=
+  env_invisible es hp
+
+/-- non-vacuity: two databases interleaved; database 1's writes push the counter between database
+    0's Begin, its transactional write and its reads, and database 0 still answers as if it were alone -/
+example :
+    (({} : Proc).run [(0, .set 0 "k" 1), (1, .set 0 "k" 7), (0, .begin 1 .rc), (1, .set 0 "k" 8), (1, .set 0 "j" 9),
+      (0, .set 1 "k" 2), (0, .get 1 "k"), (1, .get 0 "k"), (0, .get 0 "k"), (0, .commit 1), (0, .get 0 "k")]).2
+    = [(0, .ok), (1, .ok), (0, .ok), (1, .ok), (1, .ok), (0, .ok), (0, .val 2), (1, .val 8), (0, .val 1), (0, .ok), (0, .val 2)] := by
+  decide
 
 end FsDb.C05
